@@ -75,7 +75,7 @@ static void run_armed(int s, int kind) {
     case A_BECOME: do_api((op_t){O_BECOME, s, arg}); break;
     case A_UNBECOME: do_api((op_t){O_UNBECOME, s}); break;
     case A_CTXCALL: do_api((op_t){O_CTXCALL, arg}); break;
-    case A_TICK: do_api((op_t){O_SET_TICK, !CX.tick}); break;
+    case A_TICK: do_api((op_t){O_SET_TICK, arg ? arg : !CX.tick}); break;      /* arg 0: toggle; 1/2: set that period */
     case A_ERRNO: errno = ERRNOS[arg & 3]; break;
     case A_STASH: {          /* stash events of the current invocation: arg 0 first, 1 last, 2 all */
         if (kind != CB_EVT) break;
